@@ -571,6 +571,18 @@ func TestCheck(t *testing.T) {
 			Family string `json:"family"`
 		}
 		r.DecodeReplay(&fam)
+		if fam.Family == "slots" {
+			var sc SlotCase
+			r.DecodeReplay(&sc)
+			k, d := executeSlots(t, sc)
+			r.Eval(1)
+			r.Transition(len(sc.Toggles))
+			r.State(1)
+			if k != "" && k != "setup" {
+				r.Fail(k, fmt.Sprintf("%s: %s", sc, d), len(sc.Toggles), sc)
+			}
+			return
+		}
 		if fam.Family == "reorder" {
 			var rc ReorderCase
 			r.DecodeReplay(&rc)
@@ -732,6 +744,20 @@ func TestCheck(t *testing.T) {
 			if k != "" {
 				r.Fail(k, fmt.Sprintf("%s: %s", sc, d), 10, sc)
 			}
+		}
+	}
+	// slot histories (scripted): spread over the shards
+	for i, sc := range slotCases(r.Thorough()) {
+		if i%r.NShards != r.Shard || r.OverBudget() {
+			continue
+		}
+		k, d := executeSlots(t, sc)
+		r.Eval(1)
+		r.Transition(len(sc.Toggles))
+		r.State(mc.Hash("slots", k))
+		r.Nontrivial(mc.Hash(sc.String()))
+		if k != "" && k != "setup" {
+			r.Fail(k, fmt.Sprintf("%s: %s", sc, d), len(sc.Toggles), sc)
 		}
 	}
 	// reordered delivery (scripted): spread over the shards
